@@ -333,9 +333,9 @@ func cmdCheck(writeBaseline bool, argv []string) int {
 				case "inv-entry", "inv-pres":
 					taintAll[o.Func] = o.ID
 				case "requires", "bounds", "nil", "div0", "typeassert":
-					if _, ok := taintFrom[o.Func]; !ok {
-						taintFrom[o.Func] = i
-					}
+					// later obligations are proved for the executions that pass this
+					// check (standard assert-then-assume); reported as conditional_on
+					_ = i
 				}
 			}
 		}
@@ -560,6 +560,7 @@ func cmdCheck(writeBaseline bool, argv []string) int {
 		"generated_obligations":    len(obls),
 		"reachability_covers":      len(covers),
 		"vacuous_paths":            vacuous,
+		"conditional_on":           conditionalOn(results, inBL),
 		"accepted_dead_paths":      deadAccepted,
 		"undecided_not_claimed":    undecided,
 		"by_solver":                bySolver,
@@ -590,6 +591,25 @@ var droppedByTranslation = []string{
 	"interface and function-value calls without a contract: results and reachable memory unconstrained",
 	"floating point: opaque values",
 	"any instruction outside the subset: fresh value and all heaps forgotten (obligations downstream can only fail to discharge)",
+}
+
+// conditionalOn: assumed checks (callee preconditions, bounds, nil, division)
+// that are generated but not discharged: the obligations after them in the
+// same function are proved only for executions that pass these checks.
+func conditionalOn(results []*FuncResult, inBL map[string]bool) []string {
+	var out []string
+	for _, r := range results {
+		for _, o := range r.VC.obls {
+			if o.Status == "" || o.Status == "unsat" || inBL[o.ID] {
+				continue
+			}
+			switch o.Kind {
+			case "requires", "bounds", "nil", "div0", "typeassert":
+				out = append(out, o.ID)
+			}
+		}
+	}
+	return out
 }
 
 func funcKindOf(id string) string {
